@@ -32,6 +32,7 @@ RULE = ("paired runs in one process, constructed so that the floating-point "
 RULE += ("  Also: completed options / constants of the two statements compared (budgets left to their defaults); regrouping of linear rows of any kind with the internal-row-order model deciding which differences are the known finding; one vector-valued NonlinearConstraint <-> one object per component with undefined values on one component; limits exactly 0; unit scaling factors.")
 RULE += (" Equalities in the NaN-limit restatements; disp=True with reachable resolution reductions; a first statement that raises after evaluations is compared, not skipped; the transformed statement maps points with the harness's own map.")
 RULE += (' Regrouped rows with mixed magnitudes (a huge one-sided limit next to a narrow two-sided row).')
+RULE += (" Regrouped rows whose last row has limits a few ulps apart (the equal-to-rounding decision must not depend on the number of rows).")
 ASSUMPTIONS = [
     "numpy/scipy/LAPACK deterministic for identical inputs in one process",
     "a by-hand elimination/rescaling differs by BLAS-shape-dependent "
@@ -224,6 +225,17 @@ def residual_check(rec, rng, viols, info):
         ub_int = np.sort(pb.linear.a_ub @ x - pb.linear.b_ub)
         eq_int = np.sort(np.abs(pb.linear.a_eq @ x - pb.linear.b_eq))
         ub_usr, eq_usr, mags = [], [], []
+        if any(np.any(np.isfinite(g) & (g > 0)
+                      & (g <= truth.CUSHION * truth.eq_tol(lc["lb"],
+                                                            lc["ub"])))
+               for lc in b.lin
+               for g in [np.abs(np.asarray(lc["ub"], float)
+                                - np.asarray(lc["lb"], float))]):
+            # limits equal to rounding but not exactly: either reading (one
+            # equality / two inequalities) is accepted, rows not compared
+            info["residual_zone_skipped"] = info.get(
+                "residual_zone_skipped", 0) + 1
+            return
         for lc in b.lin:
             a = np.where(np.isnan(lc["A"]), 0.0, lc["A"])
             v = a @ xf
@@ -231,8 +243,7 @@ def residual_check(rec, rng, viols, info):
             mg = np.abs(a) @ np.abs(xf)
             for i in range(a.shape[0]):
                 lo, hi = lc["lb"][i], lc["ub"][i]
-                if np.isfinite(lo) and np.isfinite(hi) and \
-                        abs(hi - lo) <= tol[i]:
+                if np.isfinite(lo) and np.isfinite(hi) and hi == lo:
                     eq_usr.append(abs(v[i] - 0.5 * (lo + hi)))
                     mags.append(mg[i] + abs(lo))
                     continue
@@ -349,6 +360,24 @@ def run_case(case):
                 ks[1] = "two"
                 cut = 1
                 tags.append("mixed_magnitudes")
+            elif rng.random() < 0.35:
+                # the LAST row has limits a few ulps apart, next to 2..7
+                # one-sided rows: whether such a pair is one equality or two
+                # inequalities must not depend on how many rows the object
+                # has (the internal row order is the same in both groupings)
+                m = int(rng.integers(3, 9))
+                a = rng.uniform(-1, 1, (m, n))
+                v0 = a @ x0
+                one = str(rng.choice(["upper", "lower"]))
+                lo, hi, ks = gen.limits(rng, m, v0, kinds=(one,))
+                lvl = float(v0[-1] + rng.uniform(-0.5, 0.5)) * float(
+                    rng.choice([1.0, 1.0, 1e3]))
+                ulps = int(rng.choice([2, 8, 15, 25, 35, 45, 70, 150]))
+                lo[-1] = lvl
+                hi[-1] = lvl + ulps * EPS * max(1.0, abs(lvl))
+                ks[-1] = "two"
+                cut = int(rng.choice([1, m - 1, m - 1]))
+                tags.append("few_ulps_apart")
             spec["lin"] = [{"A": a.tolist(), "lb": lo.tolist(),
                             "ub": hi.tolist()}]
             s2 = copy.deepcopy(spec)
